@@ -642,6 +642,23 @@ def run_impl(c, Pm, operands=None):
             return {'t': 'exc', 'name': name, 'site': site, 'msg': str(e)[:160]}
 
 
+IPYOP = {'add': operator.iadd, 'sub': operator.isub, 'mul': operator.imul, 'truediv': operator.itruediv,
+         'floordiv': operator.ifloordiv, 'mod': operator.imod}
+
+
+def run_inplace(c, Pm):
+    """the in-place form x op= y on a writable copy of the left operand"""
+    with warnings.catch_warnings():
+        warnings.simplefilter('ignore')
+        try:
+            a = build(c['a'], Pm).copy()
+            b = build(c['b'], Pm)
+            return observe(IPYOP[c['op']](a, b), Pm)
+        except Exception as e:      # noqa
+            name, site = lib.exc_family(e)
+            return {'t': 'exc', 'name': name, 'site': site, 'msg': str(e)[:160]}
+
+
 def direct_operands(c, Pm):
     """the direct form of a mixed case: the non-polymath operand converted explicitly
     to the class the operation documents (class of the other operand for + and -,
@@ -961,6 +978,21 @@ def gen_cases(rng, tier):
             if fb in NONQ[:5]:
                 lb = ()
             cases.append(pick_variant(rng, op, fa, fb, la, lb))
+    # in-place core: the right operand broadcasts INTO the leading shape of the left one, so that x op= y is
+    # admissible; every operator with an in-place form x every left class x every right form
+    for op in sorted(IPYOP):
+        for fa, fb in pairs:
+            if fa not in CLS:
+                continue
+            for _ in range(1 if tier == 'quick' else 4):
+                la = rng.choice([(2,), (3,), (2, 3), (1, 2)])
+                lb = rng.choice([la, la, (), la[-1:]])
+                if fb in NONQ[:5]:
+                    lb = ()
+                c = pick_variant(rng, op, fa, fb, la, lb)
+                if c['b'].get('form') == 'ma' and 'mbits' in c['b'] and not any(c['b']['mbits']) and c['b']['mbits']:
+                    c['b']['mbits'][-1] = True
+                cases.append(c)
     if tier == 'quick':
         nrand = 2600
         for _ in range(nrand):
@@ -1216,6 +1248,16 @@ def run_case(c, Pm):
             ulps = res['ref'].ulps if isinstance(res['ref'], Res) else 4
             if not same_answer(res['impl'], res['direct'], ulps):
                 res['bad'].append('reflected-differs-from-direct')
+    # in-place form: whenever x op y has the class, kind and shape of x and x op= y is accepted, both give the
+    # same answer (mask included) - for every operand form (number, ndarray, MaskedArray, list, object)
+    if c['op'] in IPYOP and c['a']['form'] == 'qube' and res['impl']['t'] == 'obj':
+        r = res['impl']
+        if (r['cls'] == c['a']['cls'] and r['lead'] == tuple(c['a']['lead']) and r['kind'] == norm_qube(c['a']).kind
+                and r['numer'] == tuple(c['a']['numer']) and r['denom'] == tuple(c['a']['denom'])):
+            res['inplace'] = run_inplace(c, Pm)
+            ulps = res['ref'].ulps if isinstance(res['ref'], Res) else 4
+            if res['inplace']['t'] == 'obj' and not same_answer(res['inplace'], r, ulps):
+                res['bad'].append('inplace-differs-from-binary')
     return res
 
 
